@@ -28,7 +28,16 @@
 (*   WriteCache(f, o, w)   ProguardCache::write into memory -> file f      *)
 (*   WriteFail(o, k, ok)   ProguardCache::write into a sink failing at its *)
 (*                         k-th call (nothing is kept)                     *)
-(*   ParseCache(h, f)      ProguardCache::parse of file f -> handle h      *)
+(*   WriteCrash(f, o, d)   ProguardCache::write into a sink that fails: the *)
+(*                         bytes the sink had accepted (d) stay behind as   *)
+(*                         file f (what a crash during writing leaves)     *)
+(*   Truncate(f2, f, k)    the first k bytes of file f (a torn copy)        *)
+(*   Overwrite(f2,f,a,bs)  file f with bytes bs written at offset a (a      *)
+(*                         foreign / damaged file)                         *)
+(*   ParseCache(h, f, v)   ProguardCache::parse of file f with verdict v:   *)
+(*                         accepted -> handle h, else the error kind       *)
+(*   RecBegin(r, o)        ProguardMapping::iter -> open record iterator r *)
+(*   RecNext(r, got)       one next() call on it                           *)
 (*   Query(h, q, got)      remap_class / remap_method / remap_frame        *)
 (*                         (drained) / remap_throwable                     *)
 (*   Sig(h, s, got)        deobfuscate_signature                           *)
@@ -61,13 +70,16 @@ CONSTANTS
   TextOf(_, _),         \* index, stack trace text -> remapped text
   BeginOf(_, _, _),     \* index, frame, with-parameter-index -> iterator state
   StepOf(_),            \* iterator state -> [yield, it]
-  WrittenOk(_, _)       \* mapping bytes, cache bytes -> well-formed and denoting the index
+  WrittenOk(_, _),      \* mapping bytes, cache bytes -> well-formed and denoting the index
+  VerdictOk(_, _),      \* cache bytes, recorded parse verdict -> the verdict is the one the format prescribes
+  RecStepOf(_, _)       \* mapping bytes, position -> [yield, pos] of one next() call of the record iterator
 
 VARIABLES objs,         \* mapping id -> [bytes]
           handles,      \* handle id -> [kind, index, indomain, params]
           files,        \* file id -> [src, bytes]
-          iters         \* iterator id -> [h, it]
-svars == <<objs, handles, files, iters>>
+          iters,        \* iterator id -> [h, it]
+          riters        \* record iterator id -> [bytes, pos]
+svars == <<objs, handles, files, iters, riters>>
 
 Ids == 1..8
 NoObj == <<>>
@@ -77,20 +89,21 @@ SInit ==
   /\ handles = [h \in Ids |-> NoObj]
   /\ files = [f \in Ids |-> NoObj]
   /\ iters = [i \in Ids |-> NoObj]
+  /\ riters = [r \in Ids |-> NoObj]
 
 NewMapping(o, bytes) ==
   /\ objs' = [objs EXCEPT ![o] = [bytes |-> bytes]]
-  /\ UNCHANGED <<handles, files, iters>>
+  /\ UNCHANGED <<handles, files, iters, riters>>
 
 Section(o2, o, a, b) ==
   /\ objs[o] # NoObj /\ RangeOk(objs[o].bytes, a, b)
   /\ objs' = [objs EXCEPT ![o2] = [bytes |-> SectionOf(objs[o].bytes, a, b)]]
-  /\ UNCHANGED <<handles, files, iters>>
+  /\ UNCHANGED <<handles, files, iters, riters>>
 
 CloneMapping(o2, o) ==
   /\ objs[o] # NoObj
   /\ objs' = [objs EXCEPT ![o2] = objs[o]]
-  /\ UNCHANGED <<handles, files, iters>>
+  /\ UNCHANGED <<handles, files, iters, riters>>
 
 Meta(o, got) ==
   /\ objs[o] # NoObj
@@ -106,16 +119,20 @@ NewMapper(h, o, p) ==
   /\ objs[o] # NoObj
   /\ handles' = [handles EXCEPT ![h] = [kind |-> "mapper", index |-> IndexOf(objs[o].bytes),
                                         indomain |-> InDomainOf(objs[o].bytes), params |-> p]]
-  /\ UNCHANGED <<objs, files, iters>>
+  /\ UNCHANGED <<objs, files, iters, riters>>
+
+IsPrefixOf(s, t) == Len(s) <= Len(t) /\ \A k \in 1..Len(s) : s[k] = t[k]
 
 \* the bytes are an output of the call: any bytes that are well-formed, denote the mapping's index
-\* and equal what every earlier write of the same mapping bytes produced
+\* and equal what every earlier write of the same mapping bytes produced (what a failed earlier write
+\* left behind is a prefix of them)
 WriteCache(f, o, written) ==
   /\ objs[o] # NoObj
   /\ InDomainOf(objs[o].bytes) => WrittenOk(objs[o].bytes, written)
-  /\ \A g \in Ids : (files[g] # NoObj /\ files[g].src = objs[o].bytes) => files[g].bytes = written
-  /\ files' = [files EXCEPT ![f] = [src |-> objs[o].bytes, bytes |-> written]]
-  /\ UNCHANGED <<objs, handles, iters>>
+  /\ \A g \in Ids : (files[g] # NoObj /\ files[g].src = objs[o].bytes /\ files[g].kind = "whole") => files[g].bytes = written
+  /\ \A g \in Ids : (files[g] # NoObj /\ files[g].src = objs[o].bytes /\ files[g].kind = "crashed") => IsPrefixOf(files[g].bytes, written)
+  /\ files' = [files EXCEPT ![f] = [src |-> objs[o].bytes, bytes |-> written, kind |-> "whole"]]
+  /\ UNCHANGED <<objs, handles, iters, riters>>
 
 \* a write whose sink reports a failure at some call: it must report failure, and leaves no trace
 WriteFail(o, reportedOk) ==
@@ -123,11 +140,41 @@ WriteFail(o, reportedOk) ==
   /\ ~reportedOk
   /\ UNCHANGED svars
 
-ParseCache(h, f) ==
+\* a write whose sink fails at some call: it reports failure, and what the sink had accepted until then is a
+\* prefix of the file every successful write of these bytes produces; it stays behind as a file
+WriteCrash(f, o, delivered, reportedOk) ==
+  /\ objs[o] # NoObj
+  /\ ~reportedOk
+  /\ \A g \in Ids : (files[g] # NoObj /\ files[g].src = objs[o].bytes /\ files[g].kind = "whole") => IsPrefixOf(delivered, files[g].bytes)
+  /\ files' = [files EXCEPT ![f] = [src |-> objs[o].bytes, bytes |-> delivered, kind |-> "crashed"]]
+  /\ UNCHANGED <<objs, handles, iters, riters>>
+
+\* a torn copy: the first k bytes of a whole file (k less than its length)
+Truncate(f2, f, k) ==
+  /\ files[f] # NoObj /\ files[f].kind = "whole" /\ 0 <= k /\ k < Len(files[f].bytes)
+  /\ files' = [files EXCEPT ![f2] = [src |-> files[f].src, bytes |-> SubSeq(files[f].bytes, 1, k), kind |-> "crashed"]]
+  /\ UNCHANGED <<objs, handles, iters, riters>>
+
+\* a foreign or damaged file: some bytes of a file replaced (header edits, corrupted fields)
+Overwrite(f2, f, at, bs) ==
+  /\ files[f] # NoObj /\ 0 <= at /\ at + Len(bs) <= Len(files[f].bytes)
+  /\ files' = [files EXCEPT ![f2] = [src |-> files[f].src, kind |-> "damaged",
+                                     bytes |-> [k \in 1..Len(files[f].bytes) |->
+                                                  IF k > at /\ k <= at + Len(bs) THEN bs[k - at] ELSE files[f].bytes[k]]]]
+  /\ UNCHANGED <<objs, handles, iters, riters>>
+
+\* the verdict is the one the format prescribes for these bytes; an accepted whole file, and an accepted
+\* remainder of a crashed write, answer like the mapping they were written from (a torn file is rejected or
+\* else complete in everything a query reads); an accepted damaged file only has to answer (C12)
+ParseCache(h, f, verdict) ==
   /\ files[f] # NoObj
-  /\ handles' = [handles EXCEPT ![h] = [kind |-> "cache", index |-> IndexOf(files[f].src),
-                                        indomain |-> InDomainOf(files[f].src), params |-> TRUE]]
-  /\ UNCHANGED <<objs, files, iters>>
+  /\ VerdictOk(files[f].bytes, verdict)
+  /\ files[f].kind = "whole" => verdict.ok
+  /\ IF verdict.ok
+     THEN handles' = [handles EXCEPT ![h] = [kind |-> "cache", index |-> IndexOf(files[f].src), params |-> TRUE,
+                                             indomain |-> InDomainOf(files[f].src) /\ files[f].kind # "damaged"]]
+     ELSE UNCHANGED handles
+  /\ UNCHANGED <<objs, files, iters, riters>>
 
 Query(h, q, got) ==
   /\ handles[h] # NoObj
@@ -153,7 +200,7 @@ IterBegin(i, h, frame) ==
   /\ handles[h] # NoObj
   /\ iters' = [iters EXCEPT ![i] = [h |-> h, constrained |-> handles[h].indomain,
                                     it |-> BeginOf(handles[h].index, frame, handles[h].params)]]
-  /\ UNCHANGED <<objs, handles, files>>
+  /\ UNCHANGED <<objs, handles, files, riters>>
 
 \* the iterator keeps working (and keeps answering from the handle it was taken from) even when the
 \* handle id has been reused since: it borrowed the old handle
@@ -162,9 +209,24 @@ IterNextCall(i, got) ==
   /\ LET r == StepOf(iters[i].it) IN
      /\ iters[i].constrained => got = r.yield
      /\ iters' = [iters EXCEPT ![i] = [iters[i] EXCEPT !.it = r.it]]
-  /\ UNCHANGED <<objs, handles, files>>
+  /\ UNCHANGED <<objs, handles, files, riters>>
+
+\* ProguardMapping::iter: the iterator reads the mapping value's bytes from the start; it keeps reading THOSE
+\* bytes whatever happens to the id it was taken from
+RecBegin(r, o) ==
+  /\ objs[o] # NoObj
+  /\ riters' = [riters EXCEPT ![r] = [bytes |-> objs[o].bytes, pos |-> 1]]
+  /\ UNCHANGED <<objs, handles, files, iters>>
+
+RecNext(r, got) ==
+  /\ riters[r] # NoObj
+  /\ LET st == RecStepOf(riters[r].bytes, riters[r].pos) IN
+     /\ got = st.yield
+     /\ riters' = [riters EXCEPT ![r] = [riters[r] EXCEPT !.pos = st.pos]]
+  /\ UNCHANGED <<objs, handles, files, iters>>
 
 Reset ==
+  /\ riters' = [r \in Ids |-> NoObj]
   /\ objs' = [o \in Ids |-> NoObj]
   /\ handles' = [h \in Ids |-> NoObj]
   /\ files' = [f \in Ids |-> NoObj]
